@@ -3,7 +3,7 @@ PROP = dict(
     legs=[
         dict(driver="pass", quick=600, thorough=30000, shard=50, noshrink=True,
              monitors=["finished_exactly_once", "wellformed_at_stage_boundaries", "finish_iff_tree_done",
-                       "unique_urls_after_preprocess", "redirect_chain_le_max", "asset_depth_le_3", "fetched_once", "redirect_within_limit_always_followed"]),
+                       "unique_urls_after_preprocess", "redirect_chain_le_max", "asset_depth_le_3", "fetched_once", "redirect_within_limit_always_followed", "redirect_target_kept_whatever_its_path"]),
         dict(driver="pipe", quick=36, thorough=1500, shard=12,
              monitors=["finished_exactly_once (one fin.finished, one notification, one delete per queue row)",
                        "finished_only_when_tree_done", "no_fetch_after_finish", "every_built_request_fetched_before_pass_end",
